@@ -88,6 +88,7 @@
     // @harness class=complete
     #[kani::proof]
     #[kani::stub(alloc::fmt::format, stub_format)]
+    #[kani::unwind(48)]   // strings here are <= 21 bytes; unwinding assertions stay on, so passing means complete
     fn c20_server_errors_payload() {
         let kind = sym_kind();
         match kani::any::<u8>() % 3 {
